@@ -27,11 +27,12 @@ Inductive pc :=
 | JAcq (k : key) (kept : list N)                       (* map.entry(key).or_default() *)
 | JL (k : key) (kept todo seen acc stopped : list N)   (* holding k: per distinct actor, locked re-check *)
 | JCommit (k : key) (kept acc stopped : list N)        (* members.insert, index, release *)
-| JS (k : key) (joined stopped : list N)               (* remove_empty_actor_relations for rejected actors *)
+| JS (k : key) (joined lis stopped : list N)           (* remove_empty_actor_relations for rejected actors;
+                                                          lis = the group's listeners cloned inside the entry section *)
 | JEmpty (k : key)                                     (* joined = []: drop the entry if it is empty *)
 (* leave_scoped *)
 | LAcq (k : key) (acts : list N)
-| LL (k : key) (todo : list N)                         (* holding k; [] = final section + release *)
+| LL (k : key) (acts todo : list N)                    (* holding k; [] = final section + release *)
 (* monitor (default scope) *)
 | M0 (g a : N) | M1 (g a : N) | M3 (g a : N) | M4 (g a : N) | M5 (a : N)
 (* monitor_scope *)
@@ -39,6 +40,11 @@ Inductive pc :=
 (* demonitor / demonitor_scope: the relations handle is read before the entry is taken *)
 | D0 (g a : N) | D1 (g a : N) (had : bool)
 | DS0 (s a : N) | DS1 (s a : N) (had : bool)
+(* notifications, sent after the entry was released *)
+| JN (k : key) (joined lis : list N)                   (* to the cloned group listeners *)
+| JW1 (k : key) (joined : list N)                      (* read + notify the scope's world listeners *)
+| JW2 (k : key) (joined : list N)                      (* read + notify the all-scopes listeners *)
+| LN (k : key) (acts lis : list N) | LW1 (k : key) (acts : list N) | LW2 (k : key) (acts : list N)
 | Done.
 
 (* exit machine of one actor: set_status(Stopping) = publish; demonitor_all; leave_all *)
@@ -48,8 +54,12 @@ Inductive xpc :=
 | XDg (gmons : list key) (wmons : list N)     (* demonitor_all: group entries still to visit *)
 | XDw (wmons : list N)                        (* demonitor_all: world entries still to visit *)
 | XL0                                         (* leave_all not started *)
-| XL (todo : list key)                        (* leave_all: memberships taken, entries to visit *)
-| XRm                                         (* remove_empty_actor_relations *)
+| XL (todo : list key) (evs : list (key * list N))  (* leave_all: memberships taken, entries to visit;
+                                                       evs = removal_events: (key, cloned listeners) *)
+| XRm (evs : list (key * list N))             (* remove_empty_actor_relations *)
+| XN (evs : list (key * list N))              (* per removal event: notify the cloned group listeners *)
+| XNW1 (k : key) (rest : list (key * list N)) (* read + notify the scope's world listeners *)
+| XNW2 (k : key) (rest : list (key * list N)) (* read + notify the all-scopes listeners *)
 | XDone.                                      (* clean-up finished: wait() may return after this *)
 
 Record cstate := mkC {
@@ -103,26 +113,26 @@ Definition tstep (t : nat) (p : pc) (c : cstate) : pc * cstate :=
     let mem' := fold_left (fun m a => nadd a m) joined (g_mem gs) in
     let g1 := pg_map g (kupd (p_map g) k (Some (mkG mem' (g_lis gs)))) in
     let g2 := if null joined then g1 else pg_index g1 (index_add (p_index g1) (fst k) (snd k)) in
-    (JS k joined stopped, set_held (set_pg c g2) k None)
-  | JS k joined (a :: stopped) => (JS k joined stopped, set_pg c (pg_rels g (rels_remove_empty (p_rels g) a)))
-  | JS k joined [] => if null joined then (JEmpty k, c) else (Done, c)
+    (JS k joined (g_lis gs) stopped, set_held (set_pg c g2) k None)
+  | JS k joined lis (a :: stopped) => (JS k joined lis stopped, set_pg c (pg_rels g (rels_remove_empty (p_rels g) a)))
+  | JS k joined lis [] => if null joined then (JEmpty k, c) else (JN k joined lis, c)
   | JEmpty k => if free c k then (Done, set_pg c (pg_map g (map_remove_empty (p_map g) k))) else (p, c)
   | LAcq k acts =>
     if free c k then
       match p_map g k with
-      | Some _ => (LL k acts, set_held c k (Some t))
+      | Some _ => (LL k acts acts, set_held c k (Some t))
       | None => (Done, c)
       end
     else (p, c)
-  | LL k (a :: todo) =>
+  | LL k acts (a :: todo) =>
     let gs := gs_of g k in
-    (LL k todo,
+    (LL k acts todo,
      set_pg c (pg_rels (pg_map g (kupd (p_map g) k (Some (mkG (nrem a (g_mem gs)) (g_lis gs)))))
                        (nupd (p_rels g) a (option_map (rel_rem_mem k) (p_rels g a)))))
-  | LL k [] =>
+  | LL k acts [] =>
     let gs := gs_of g k in
     let g1 := if null (g_mem gs) then pg_index g (index_rem (p_index g) (fst k) (snd k)) else g in
-    (Done, set_held (set_pg c (pg_map g1 (kupd (p_map g1) k (norm_entry (g_mem gs) (g_lis gs))))) k None)
+    (LN k acts (g_lis gs), set_held (set_pg c (pg_map g1 (kupd (p_map g1) k (norm_entry (g_mem gs) (g_lis gs))))) k None)
   | M0 gr a => (M1 gr a, set_pg c (pg_rels g (rels_create (p_rels g) a)))
   | M1 gr a =>
     let k := (DEFAULT, gr) in
@@ -168,7 +178,28 @@ Definition tstep (t : nat) (p : pc) (c : cstate) : pc * cstate :=
     | Some ls => (Done, set_pg c (pg_rels (pg_world g (nupd (p_world g) s (norm_list (nrem a ls)))) rels'))
     | None => (Done, set_pg c (pg_rels g rels'))
     end
+  | JN k joined lis => (JW1 k joined, c)
+  | JW1 k joined => (JW2 k joined, c)
+  | JW2 k joined => (Done, c)
+  | LN k acts lis => (LW1 k acts, c)
+  | LW1 k acts => (LW2 k acts, c)
+  | LW2 k acts => (Done, c)
   | Done => (Done, c)
+  end.
+
+(* the notifications a thread step sends (the supervision port of each recipient is an
+   unbounded FIFO channel: the global send order restricted to one recipient is its
+   delivery order) *)
+Definition tstep_evs (p : pc) (c : cstate) : list ev :=
+  let g := c_pg c in
+  match p with
+  | JN k joined lis => notify_list lis true (fst k) (snd k) joined
+  | JW1 k joined => notify_list (world_of g (fst k)) true (fst k) (snd k) joined
+  | JW2 k joined => notify_list (world_of g WORLD) true (fst k) (snd k) joined
+  | LN k acts lis => notify_list lis false (fst k) (snd k) acts
+  | LW1 k acts => notify_list (world_of g (fst k)) false (fst k) (snd k) acts
+  | LW2 k acts => notify_list (world_of g WORLD) false (fst k) (snd k) acts
+  | _ => []
   end.
 
 (* the entry section of leave_all for one key *)
@@ -195,12 +226,28 @@ Definition xstep (a : N) (x : xpc) (c : cstate) : xpc * cstate :=
   | XL0 =>
     match p_rels g a with
     | None => (XDone, c)
-    | Some r => (XL (r_mem r), set_pg c (pg_rels g (nupd (p_rels g) a (Some (mkR [] (r_gmon r) (r_wmon r))))))
+    | Some r => (XL (r_mem r) [], set_pg c (pg_rels g (nupd (p_rels g) a (Some (mkR [] (r_gmon r) (r_wmon r))))))
     end
-  | XL (k :: todo) => if free c k then (XL todo, set_pg c (leave_one g a k)) else (x, c)
-  | XL [] => (XRm, c)
-  | XRm => (XDone, set_pg c (pg_rels g (rels_remove_empty (p_rels g) a)))
+  | XL (k :: todo) evs =>
+    if free c k
+    then (XL todo (evs ++ if nmem a (mem_of g k) then [(k, lis_of g k)] else []), set_pg c (leave_one g a k))
+    else (x, c)
+  | XL [] evs => (XRm evs, c)
+  | XRm evs => (XN evs, set_pg c (pg_rels g (rels_remove_empty (p_rels g) a)))
+  | XN ((k, lis) :: rest) => (XNW1 k rest, c)
+  | XN [] => (XDone, c)
+  | XNW1 k rest => (XNW2 k rest, c)
+  | XNW2 k rest => (XN rest, c)
   | XDone => (XDone, c)
+  end.
+
+Definition xstep_evs (a : N) (x : xpc) (c : cstate) : list ev :=
+  let g := c_pg c in
+  match x with
+  | XN ((k, lis) :: _) => notify_list lis false (fst k) (snd k) [a]
+  | XNW1 k _ => notify_list (world_of g (fst k)) false (fst k) (snd k) [a]
+  | XNW2 k _ => notify_list (world_of g WORLD) false (fst k) (snd k) [a]
+  | _ => []
   end.
 
 Inductive label := LT (t : nat) | LX (a : N).
@@ -225,6 +272,18 @@ Definition cstep (c : cstate) (l : label) : cstate :=
 
 Definition crun (c : cstate) (ls : list label) : cstate := fold_left cstep ls c.
 
+(* the events sent by one step, and the log of a schedule *)
+Definition cstep_evs (c : cstate) (l : label) : list ev :=
+  match l with
+  | LT t => match nth_error (c_thr c) t with Some p => tstep_evs p c | None => [] end
+  | LX a => xstep_evs a (c_x c a) c
+  end.
+Fixpoint clog (c : cstate) (ls : list label) : list ev :=
+  match ls with
+  | [] => []
+  | l :: t => cstep_evs c l ++ clog (cstep c l) t
+  end.
+
 (* the calls of the public API as initial program counters *)
 Inductive call :=
 | CJoin (s g : N) (acts : list N) | CLeave (s g : N) (acts : list N)
@@ -246,31 +305,38 @@ Definition cinit (calls : list call) : cstate :=
 
 (* ---------- solo runs: a single call / exit executed to completion on a quiescent state.
    Used by the check to tie this model to the atomic one (and thereby to the code). ---------- *)
-Fixpoint solo_thread (fuel : nat) (p : pc) (c : cstate) : cstate :=
+Fixpoint solo_thread (fuel : nat) (p : pc) (c : cstate) (log : list ev) : cstate * list ev :=
   match fuel with
-  | O => c
+  | O => (c, log)
   | S f => match p with
-           | Done => c
-           | _ => let (p', c') := tstep 0 p c in solo_thread f p' c'
+           | Done => (c, log)
+           | _ => let (p', c') := tstep 0 p c in solo_thread f p' c' (log ++ tstep_evs p c)
            end
   end.
-Fixpoint solo_exit (fuel : nat) (a : N) (x : xpc) (c : cstate) : cstate :=
+Fixpoint solo_exit (fuel : nat) (a : N) (x : xpc) (c : cstate) (log : list ev) : cstate * list ev :=
   match fuel with
-  | O => c
+  | O => (c, log)
   | S f => match x with
-           | XDone => mkC (c_pg c) (c_held c) (c_thr c) (nupd (c_x c) a XDone)
-           | _ => let (x', c') := xstep a x c in solo_exit f a x' c'
+           | XDone => (mkC (c_pg c) (c_held c) (c_thr c) (nupd (c_x c) a XDone), log)
+           | _ => let (x', c') := xstep a x c in solo_exit f a x' c' (log ++ xstep_evs a x c)
            end
   end.
-Definition solo_op (c : cstate) (o : op) : cstate :=
+Definition solo_op_e (c : cstate) (o : op) : cstate * list ev :=
   match o with
-  | OJoin s g acts => solo_thread 1000 (pc_of (CJoin s g acts)) c
-  | OLeave s g acts => solo_thread 1000 (pc_of (CLeave s g acts)) c
-  | OMon g a => solo_thread 1000 (pc_of (CMon g a)) c
-  | OMonScope s a => solo_thread 1000 (pc_of (CMonScope s a)) c
-  | ODemon g a => solo_thread 1000 (pc_of (CDemon g a)) c
-  | ODemonScope s a => solo_thread 1000 (pc_of (CDemonScope s a)) c
-  | OExit a => match c_x c a with XAlive => solo_exit 1000 a XAlive c | _ => c end
+  | OJoin s g acts => solo_thread 1000 (pc_of (CJoin s g acts)) c []
+  | OLeave s g acts => solo_thread 1000 (pc_of (CLeave s g acts)) c []
+  | OMon g a => solo_thread 1000 (pc_of (CMon g a)) c []
+  | OMonScope s a => solo_thread 1000 (pc_of (CMonScope s a)) c []
+  | ODemon g a => solo_thread 1000 (pc_of (CDemon g a)) c []
+  | ODemonScope s a => solo_thread 1000 (pc_of (CDemonScope s a)) c []
+  | OExit a => match c_x c a with XAlive => solo_exit 1000 a XAlive c [] | _ => (c, []) end
+  end.
+Definition solo_op (c : cstate) (o : op) : cstate := fst (solo_op_e c o).
+Fixpoint evs_eqb (a b : list ev) : bool :=
+  match a, b with
+  | [], [] => true
+  | x :: a', y :: b' => ev_eqb x y && evs_eqb a' b'
+  | _, _ => false
   end.
 (* after every operation: do the micro-step model and the atomic model show the same view? *)
 Fixpoint solo_agree (u : universe) (c : cstate) (st : pg) (ops : list op) : bool :=
@@ -279,6 +345,8 @@ Fixpoint solo_agree (u : universe) (c : cstate) (st : pg) (ops : list op) : bool
   | o :: t =>
     let c' := solo_op c o in
     let st' := fst (step st o) in
+    (* same notifications, in the same order (group batches of an exit follow the model's key order) *)
+    evs_eqb (snd (solo_op_e c o)) (snd (step st o)) &&
     let v1 := view_of u (c_pg c') [] in
     let v2 := view_of u st' [] in
     forallb (fun k => nset_eqb (klookup [] k (v_members v1)) (klookup [] k (v_members v2))
